@@ -14,7 +14,7 @@ Theorem C12_rechunk r gk chunks chunks' ng m nt nt' :
   concat chunks = concat chunks' -> length gk = length (concat chunks) -> wf_mask (length gk) m ->
   covered chunks m -> covered chunks' m ->
   group_func_wrap fops r gk chunks ng m nt = group_func_wrap fops r gk chunks' ng m nt'.
-Proof. exact (group_func_wrap_split_independent fops fops_laws fops_sum_closed r gk chunks chunks' ng m nt nt'). Qed.
+Proof. exact (group_func_wrap_split_independent fops fops_laws r gk chunks chunks' ng m nt nt'). Qed.
 Print Assumptions C12_rechunk.
 
 (* 2. min / max / first / last are elements of the input (or null): nothing is computed, so
